@@ -15,19 +15,47 @@ class PathLimit(Exception):
 
 
 class Path:
-    __slots__ = ('pc', 'status', 'value', 'facts', 'side', 'notes', 'extra')
+    __slots__ = ('pc', 'status', 'value', 'ctx', 'extra')
 
     def __init__(self, pc, status, value, ctx):
         self.pc = pc            # list of B nodes (decisions taken, as literals)
         self.status = status    # 'return' | 'raise'
         self.value = value      # return value or exception instance
-        self.facts = list(ctx.facts)
-        self.side = list(ctx.side)
-        self.notes = list(ctx.notes)
+        self.ctx = ctx          # the run's context (facts / side conditions / notes / caches), live
+        ctx.explorer = None
         self.extra = {}
+
+    @property
+    def facts(self):
+        return self.ctx.facts
+
+    @property
+    def side(self):
+        return self.ctx.side
+
+    @property
+    def notes(self):
+        return self.ctx.notes
+
+    def resume(self):
+        """context manager: derive further terms in this path's context (shared sqrt / reciprocal variables)"""
+        return _Resume(self.ctx)
 
     def cond(self):
         return ir.band_all(self.pc)
+
+
+class _Resume:
+    def __init__(self, ctx):
+        self.ctx = ctx
+
+    def __enter__(self):
+        self.old = S.CTX
+        S.CTX = self.ctx
+        return self.ctx
+
+    def __exit__(self, *a):
+        S.CTX = self.old
 
 
 class Explorer:
@@ -95,6 +123,40 @@ class Explorer:
         self.trace.append((node, v, aux))
         self.solver.add(zn if v else z3.Not(zn))
         return v
+
+    def assume(self, node):
+        """restrict the current path to node (environment contract, e.g. 'the sampled outcome has positive probability'):
+        no fork; Infeasible if the path cannot satisfy it"""
+        if node.op == 'const':
+            if node.val:
+                return
+            raise Infeasible()
+        i = len(self.trace)
+        self._sync_facts()
+        zn = self.tr(node)
+        if i < len(self.prefix):
+            if self.prefix[i][0] is not node:
+                raise S.EngineError('non-deterministic re-execution (assume %d differs)' % i)
+        else:
+            if self._check(zn) == z3.unsat:
+                raise Infeasible()
+        self.trace.append((node, True, 'assume'))
+        self.solver.add(zn)
+
+    def choose(self, n, name=None):
+        """environment choice of an integer in range(n): forks over all values; no solver variable is involved"""
+        i = len(self.trace)
+        if i < len(self.prefix):
+            tag = self.prefix[i][2]
+            if not (isinstance(tag, tuple) and tag[0] == 'choice'):
+                raise S.EngineError('non-deterministic re-execution (choice %d differs)' % i)
+            k = tag[1]
+        else:
+            k = 0
+            for other in range(n - 1, 0, -1):
+                self.pending.append(list(self.trace) + [(ir.TRUE, True, ('choice', other))])
+        self.trace.append((ir.TRUE, True, ('choice', k)))
+        return k
 
     def concretize(self, bvs):
         """pick concrete values of a symbolic integer one at a time (each choice is a decision)"""
